@@ -71,6 +71,11 @@ def check(ctx):
     # search the same places (the directory of the top file is not one of them)
     srcs.append(("pp", {"sub/top.sv": "a\n`include \"sib.svh\"\nz\n", "sub/sib.svh": "`define WIDTH 8\nsib\n"}))
     srcs.append(("pp", {"sub/top.sv": "a\n`include \"sib.svh\"\nz `WIDTH\n", "sub/sib.svh": "`define WIDTH 8\n", "lib/sib.svh": "`define WIDTH 16\n"}))
+    # the path of the top file spelled in a way that is not normal form: both entry points work under the spelling they are given
+    # (`__FILE__, origins, the origin of a definition)
+    for sp in ("sub//top.sv", "sub/./top.sv", "./sub/top.sv", "sub/../sub/top.sv", ".//top.sv"):
+        key = "sub/top.sv" if "sub" in sp else "top.sv"
+        srcs.append(("pp", {key: "`define HERE `__FILE__\na `__FILE__ b `HERE `__LINE__\n`include \"i.svh\"\n", "i.svh": "in `__FILE__\n", "@top": sp}))
     # include chains around the recursion limit: the file and the string entry points stop at the same level
     for depth in ((64, 65) if q else (1, 15, 63, 64, 65, 66)):
         fs = {"top.sv": "// top\nt0\n`include \"c1.svh\"\n"}
@@ -88,9 +93,11 @@ def check(ctx):
             toppath = "top.sv"
             if k == "pp":
                 for p, tx in t.items():
-                    c.add("file", hx(p), hx(tx))
-                toppath = "sub/top.sv" if "sub/top.sv" in t else "top.sv"
-                top = t[toppath]
+                    if p != "@top":
+                        c.add("file", hx(p), hx(tx))
+                topkey = "sub/top.sv" if "sub/top.sv" in t else "top.sv"
+                toppath = t.get("@top", topkey)          # the spelling of the path handed to both entry points
+                top = t[topkey]
             else:
                 c.add("file", hx("top.sv"), hx(t))
                 c.add("file", hx("inc.svh"), hx("wire inc_w; // ic\n" if k == "sv" else "library inc c;\n"))
